@@ -1,6 +1,7 @@
 import PycsepVerif.GeneratedSrc
 import PycsepVerif.Model.Bin1d
 import PycsepVerif.Proofs.Soft64Round
+import PycsepVerif.Proofs.Bin1d
 import Mathlib.Data.Rat.Floor
 import Mathlib.Tactic.Linarith
 /-!
@@ -198,6 +199,79 @@ theorem bin1d_vec_eq_model (p : Rat) (bins : List Rat) (rc : Bool) (h2 : (bins.l
 
 example : Src.bin1d_vec (439/5) [59/10, 166/5, 121/2, 439/5, 1151/10] false = .ok 3 := by decide +kernel
 
+
+/-! ### discretize (calc.py:37-55) -/
+
+/-- `discretize`'s exceptions in the model and in the generated definition (`CSEPException` is `Py.Err.other`) -/
+def discErr : DiscErr → Py.Err
+  | .valueError => .valueError
+  | .indexError => .indexError
+  | .csepException => .other
+
+theorem np_any_eq_neg_one (idx : List Int) :
+    Py.np_any (List.map (fun x_ => decide (x_ = (-1 : Int))) idx) = idx.any (fun i => i == -1) := by
+  induction idx with
+  | nil => rfl
+  | cons a l ih =>
+    have : Py.np_any (List.map (fun x_ => decide (x_ = (-1 : Int))) l) = l.any (fun i => i == -1) := ih
+    simp only [Py.np_any, List.map_cons, List.any_cons] at this ⊢
+    rw [this]
+    by_cases h : a = -1 <;> simp [h]
+
+theorem mapUniform_ok {β γ : Type} [Inhabited β] [Inhabited γ] (f : β → Except Py.Err γ) (g : β → γ)
+    (h : ∀ x, f x = .ok (g x)) (a : List β) : Py.mapUniform f a = .ok (a.map g) := by
+  simp only [Py.mapUniform, h]
+
+theorem getF_nonneg (bins : List Rat) (i : Int) (h : 0 ≤ i) : Py.getF bins i = bins.getD i.toNat 0 := by
+  simp [Py.getF, h]
+
+/-- **`discretize(data, bin_edges, right_continuous)`**, float64 data and edges: for every data array, every edge list that
+    is empty or has at least two (at most 2^53) edges and either mode, the generated definition raises / returns what the
+    model's `discretizeF` does. A single edge (Python: IndexError at `bin_edges[1]`) is outside the specialisation: array
+    indexing is translated without bounds checks. -/
+theorem discretize_eq_model (data bins : List Rat) (rc : Bool) (h1 : bins.length ≠ 1) (h2 : (bins.length : Int) ≤ 2 ^ 53) :
+    Src.discretize data bins rc = (discretizeF .f64 .f64 rc bins data).mapError discErr := by
+  unfold Src.discretize discretizeF
+  by_cases h0 : bins.length = 0
+  · have : Py.size bins = 0 := by simp [Py.size, h0]
+    rw [if_pos (by simpa using this), if_pos h0]; rfl
+  · have hs : ¬ (Py.size bins = 0) := by simp only [Py.size]; omega
+    rw [if_neg (by simpa using hs), if_neg h0, if_neg h1, getF_one, getF_zero]
+    by_cases hlt : bins.getD 1 0 < bins.getD 0 0
+    · rw [if_pos (by simpa using hlt), if_pos hlt]; rfl
+    · rw [if_neg (by simpa using hlt), if_neg hlt]
+      have hH : hOf .f64 bins.length (fun k => bins.getD k 0) = fsub (bins.getD 1 0) (bins.getD 0 0) := by
+        have : (bins.length == 1) = false := by simpa using h1
+        simp [hOf, this, DT.rnd, fsub]
+      have hnn : ¬ hOf .f64 bins.length (fun k => bins.getD k 0) < 0 := by
+        rw [hH]; unfold fsub
+        exact not_lt.mpr (Soft64R.fl64_nonneg (by linarith [not_lt.mp hlt]))
+      have hb : ∀ p, Src.bin1d_vec p bins rc = .ok (bin1dF (cfg64 rc) bins p) := by
+        intro p; rw [bin1d_vec_eq_model p bins rc h2, if_neg hnn]
+      simp only [mapUniform_ok _ _ hb, np_any_eq_neg_one]
+      change (if (data.map (bin1dF (cfg64 rc) bins)).any (fun i => i == -1) = true then _ else _) = _
+      by_cases ha : (data.map (bin1dF (cfg64 rc) bins)).any (fun i => i == -1) = true
+      · rw [if_pos ha]
+        have : (data.map (bin1dF { pd := .f64, bd := .f64, tol := none, rc := rc } bins)).any (fun i => i == -1) = true := ha
+        rw [if_pos this]; rfl
+      · rw [if_neg ha]
+        have : ¬ (data.map (bin1dF { pd := .f64, bd := .f64, tol := none, rc := rc } bins)).any (fun i => i == -1) = true := ha
+        rw [if_neg this]
+        simp only [Except.mapError]
+        congr 1
+        apply List.map_congr_left
+        intro i hi
+        have hne : i ≠ -1 := by
+          intro h; apply ha
+          exact List.any_eq_true.mpr ⟨i, hi, by simp [h]⟩
+        obtain ⟨p, _, rfl⟩ := List.mem_map.mp hi
+        have hn : 0 < bins.length := Nat.pos_of_ne_zero h0
+        have hr := (Bin1d.clampIdx_range (cfg64 rc).rc hn (corrIdx (cfg64 rc) bins.length (fun k => bins.getD k 0) p)).1
+        have : 0 ≤ bin1dF (cfg64 rc) bins p := by
+          have e : bin1dF (cfg64 rc) bins p
+              = clampIdx (cfg64 rc).rc bins.length (corrIdx (cfg64 rc) bins.length (fun k => bins.getD k 0) p) := rfl
+          rw [e] at hne ⊢; omega
+        exact getF_nonneg bins _ this
 
 /-! ### cleaner_range -/
 
